@@ -621,7 +621,7 @@ def run_impl(case):
                 o_obj = one(lnk).O_OBJ[678]()
                 r_rel = one(lnk).R_REL[681]()
                 got_step = (o_obj.Key_Lett if o_obj else None, 'R%s' % r_rel.Numb if r_rel else None, lnk.Rel_Phrase)
-                if got_step != (kl, relid, phrase):
+                if got_step != (kl, G._canon_rel(relid), phrase):
                     fail('next-link', 'step %d of the chain of the select at line %d is %s in the population, %s in the '
                          'source' % (i, spos[0], got_step, (kl, relid, phrase)))
                 nxt = lnk.Next_Link_ID
